@@ -14,19 +14,19 @@ CHECKS = {
          "Every truncation, single-byte perturbation and RDLENGTH value of reference encodings of all 40 types, messages holding thousands of records of one type, all short buffers, all bodies up to 6 (7) bytes over a 12-symbol alphabet, generated pointer graphs up to 64 KiB and mutated reference encodings are parsed under panic capture, a per-thread heap meter and a thread-CPU watchdog; thorough adds libFuzzer campaigns with the same oracle in-target. Exploration: absence is not established beyond the enumerated bounds.",
          "Heap bound 64 KiB + 1024*len calibrated on the densest legitimate input; time asserted only through the 5 s / 20 s CPU watchdog; inputs capped at 65535 bytes.", "4/C01"),
  "C02": ("property-based round trip: abstract packet -> public constructors -> build_bytes_vec -> parse -> field-by-field observation",
-         "Generated packets over every typed variant, unknown and empty RDATA, binary labels, boundary integers, EDNS, named codes, plus suffix-sharing packets of up to 65535 bytes and packets assembled through the text / map / setter based constructors; the parsed packet is observed through public accessors and byte hooks and compared with the generating model, not with the library's own PartialEq.",
+         "Generated packets over every typed variant, unknown and empty RDATA, binary labels, boundary integers, EDNS, named codes, plus suffix-sharing packets of up to 65535 bytes and packets assembled through the text / map / setter based constructors; names are built by one of three public routes per packet (from labels, through Name::without, from text); the parsed packet is observed through public accessors and byte hooks and compared with the generating model, not with the library's own PartialEq.",
          "Trusts the bridge (checks keyed by field name) and the documented construction domain (exclusions listed in the evidence assumptions).", "4/C02"),
  "C03": ("property-based differential: compressed vs plain serialisation vs model, suffix-sharing names, sizes straddling 16 KiB",
-         "Generated suffix-sharing packets with filler that moves names just below / at / above offset 16383 and up to 65535 bytes; compressed and plain outputs must parse to the model and compressed must not be longer; the compressed form is also written at a non-zero stream offset and through a writer accepting 1..3 bytes per call.",
+         "Generated suffix-sharing packets with filler that moves names just below / at / above offset 16383 and up to 65535 bytes; compressed and plain outputs must parse to the model and compressed must not be longer; the compressed form is also written at a non-zero stream offset and through a writer accepting 1..3 bytes per call; names by three public routes, NSEC windows stored in descending order in a fifth of the packets.",
          "Same exclusions as C02; large messages are a weighted minority of cases (reported in coverage.classes).", "4/C03"),
  "C04": ("property-based + capacity enumeration: independent envelope walker and byte equality across writer configurations",
-         "Generated packets, packets built through the alternative constructors and packets obtained from the parser x {plain, compressed} x {Vec, growable cursor at offset 0/2/k over empty and pre-filled storage, writers accepting 1/3/7 bytes per call, fixed slices and cursors of every capacity 0..len+2}; framing checked by an independent RFC 1035 walker plus the schema decoder.",
+         "Generated packets (names built from labels, through Name::without or from text), packets built through the alternative constructors and packets obtained from the parser x {plain, compressed} x {Vec, growable cursor at offset 0/2/k over empty and pre-filled storage, writers accepting 1/3/7 bytes per call, fixed slices and cursors of every capacity 0..len+2}; framing checked by an independent RFC 1035 walker plus the schema decoder.",
          "Capacity sweep is complete only for 15% of packets up to 600 bytes, 11 boundary capacities otherwise; cursor position after the write is not checked.", "4/C04"),
  "C05": ("property-based differential against an independent RFC 1035 envelope walker + schema decoder confined to each RDLENGTH slice",
          "Reference encodings with RDLENGTH larger (random or record-shaped surplus) or smaller than the typed content, bumped section counts, sections really holding 0..4000 entries, stray and twin OPT records, and mutated encodings; walker failure or content outside its frame => library must reject; library Ok => entries equal the framed entries.",
          "The library may reject for reasons of its own; no claim then. Reference schema is my RFC transcription (anchored on dnspython samples in C10).", "4/C05"),
  "C06": ("bounded-exhaustive enumeration + property-based generation against an independent RFC 1035 4.1.4 name decoder",
-         "Every buffer up to 6 (7) bytes over a 12-symbol alphabet at every start offset, names around 255 bytes, chains of up to 4000 backward hops, every reserved-type octet, random label/pointer soups, and names inside messages of every record type (foreign compression, pointers up to offset 16383) are decoded by the library (hook Name::verif_parse) and by a reference decoder with a visited set; labels, resume offset and error classes are compared.",
+         "Every buffer up to 6 (7) bytes over a 12-symbol alphabet at every start offset, names around 255 bytes, chains of up to 4000 backward hops, every reserved-type octet, random label/pointer soups, names inside messages of every record type (foreign compression, pointers up to offset 16383), and records whose RDATA ends right before their last name are decoded by the library (hook Name::verif_parse) and by a reference decoder with a visited set; labels, resume offset and error classes are compared.",
          "Forward pointers and chains longer than 32 hops may be refused without claim; exhaustive only within the stated alphabet and length.", "4/C06"),
  "C07": ("property-based with an independent schema-aware pointer walker over compressed output, writers at non-zero origin",
          "Every name occurrence (question, owner, RDATA names by type) of generated compressed messages is located independently; pointers must be backwards, <= 16383, onto a label start of an earlier-written name and relative to the message start; forbidden positions uncompressed; repeated RFC 1035 names compressed.",
@@ -47,13 +47,13 @@ CHECKS = {
          "Inputs biased to invalid UTF-8, NUL, dots, backslashes, empty and maximal strings; Debug/Display/clone/into_owned/eq/hash/suffix algebra/matching/TXT conversions are all invoked on every part.",
          "WireFormat::len is crate-private and not an observer.", "4/C12"),
  "C13": ("model-based testing: bounded-exhaustive catalogue + random histories over every record type against a set-based reference store and matcher (lower/upper bound on answers)",
-         "Every subset of <= 3 (4) records of a catalogue whose names collide under concatenation x 288 questions and sampled pairs, plus random add/remove/clear histories and queries; answers must lie between the must-answer and may-answer sets; additional records, id, flags, unicast and no-reply conditions checked.",
+         "Every subset of <= 3 (4) records of a 19-record catalogue whose names collide under concatenation x 528 questions and sampled pairs (each subset of 2..3 also with one member add-cached), plus random add/remove/clear histories and queries; answers must lie between the must-answer and may-answer sets; additional records, id, flags, unicast and no-reply conditions checked.",
          "Lowercase names only; MAILA/AXFR/IXFR matching not claimed; driven through the simple_mdns::verif hook.", "4/C13"),
  "C14": ("property-based sequences through a step-for-step copy of the three receive loops under panic capture and a real RwLock (supervised child process: a stack overflow or abort is decided by a crash journal), an alignment sweep of replies beyond 16 KiB, plus sampled fault injection over real loopback multicast sockets (sync and async services and resolvers)",
-         "Datagram sequences (empty, short, random, mutated, hostile names, large) against arbitrary stores; no panic, lock not poisoned, replies parse, store still answers; a real responder and discovery service receive generated datagrams between two probe queries.",
+         "Datagram sequences (empty, short, random, mutated, hostile names, large) against arbitrary stores; no panic, lock not poisoned, replies parse, store still answers; a real responder and discovery service (sync and async) receive generated datagrams and responses claiming the discoverers' own instance names between two probe queries, and get_known_services must return within 30 s afterwards.",
          "The pure pipeline copies the loop bodies; only the socket section sees edits to the loops. Interleavings on the shared store are not explored. Socket section makes no claim without usable multicast.", "4/C14"),
  "C15": ("model-based testing: advertise (full, partial, reply-style) -> compressed wire -> ingest (sync / async) -> virtual time -> report, two-sided comparison with what the receptions imply; escape/unescape round trip",
-         "Peers, repeated announcements and noise (own instance, service-name PTR, colliding foreign services, deeper names) are ingested with the receive loop's own function and read back as get_known_services does; reported set must equal the advertised set exactly.",
+         "Peers, repeated announcements and noise (own instance, service-name PTR, colliding foreign services, deeper names) (in reply style produced by the library's own build_reply answering the discoverer's two-question query) are ingested with the receive loop's own function and read back as get_known_services does; reported set must equal the advertised set exactly.",
          "Driven through the simple_mdns::verif hook with the store initialised as ServiceDiscovery::new does; the async variant shares the store and from_records only.", "4/C15"),
  "C16": ("property-based: clone / into_owned / built-vs-parsed triples compared by ==, observation, hash and bytes; twins differing in one field, in padding, in letter case, in class or in the way their type is named (== implies equal hashes); set-valued values rebuilt in permuted orders",
          "Three versions of every value (built, borrowed from plain buffer, borrowed from compressed buffer) and their clones / owned copies must be equal, hash equally and serialise identically; InstanceInformation rebuilt 32 times in rotated/reversed insertion orders.",
